@@ -9,7 +9,7 @@ from rv.util import B, build_operand, exc_matches, rb
 OPS = ['append', 'iadd', 'prepend', 'insert', 'overwrite', 'delitem', 'setitem_bits', 'setitem_int',
        'reverse', 'rol', 'ror', 'set', 'invert', 'ilshift', 'irshift', 'imul', 'iand', 'ior', 'ixor',
        'clear', 'replace', 'byteswap']
-OPERAND_KINDS = ['Bits', 'BitArray', 'ConstBitStream', 'BitStream', 'str', 'str', 'bytes', 'list', 'bitarray', 'tuple']
+OPERAND_KINDS = ['Bits', 'BitArray', 'ConstBitStream', 'BitStream', 'str', 'str', 'bytes', 'list', 'bitarray', 'tuple', 'truthy-iter']
 
 
 # ---- JSON <-> python for keys / position iterables -------------------------------------------
